@@ -74,7 +74,10 @@ def r1(repo, res):
     bad = None
     n = 0
     try:
-        for k in (1, 2):
+        from sa.report import thorough
+        for k in ((1, 2, 3) if thorough() else (1, 2)):
+            if k == 3:
+                agrid, vgrid = [0, 1, 2], [-2, -1, 0, 1]
             for vs in itertools.product(vgrid, repeat=k):
                 for as_ in itertools.product(agrid, repeat=k):
                     rec = Recorder(as_)
@@ -135,7 +138,8 @@ def r2(repo, res):
     bad = None
     n = 0
     try:
-        for k in (1, 2, 3, 4):
+        from sa.report import thorough
+        for k in ((1, 2, 3, 4, 5, 6, 7) if thorough() else (1, 2, 3, 4)):
             for bits in itertools.product((0, 1), repeat=k + 1):
                 r_, ts = bits[0], list(bits[1:])
                 rec = Recorder()
